@@ -1,7 +1,7 @@
 SPECIFICATION Spec
 CONSTANTS
   Cols = 2
-  MaxRows = 2
+  MaxRows = 3
   MaxSteps = 5
 PROPERTIES WriteFrame ResizeKeeps RejectFrame
 VIEW View
